@@ -47,9 +47,19 @@ def run_tables(arg):
         for k, v in arg.get('osenv', {}).items():
             envbak[k] = os.environ.get(k)
             os.environ[k] = v
+        kw = dict(arg.get('kw', {}))
+        outd = None
+        if arg.get('to_files'):
+            # results written by the engine itself (output_folder): what is read back is the FILE content
+            import tempfile
+            tmpd = tmpd or tempfile.mkdtemp(prefix='bulk-', dir=engine.sub_dir('tmp'))
+            outd = os.path.join(tmpd, 'out')
+            os.makedirs(outd, exist_ok=True)
+            from pathlib import Path
+            kw['output_folder'] = Path(outd)
         try:
             res = run(script=arg['script'], data_structures=ds, datapoints=dps, return_only_persistent=False,
-                      scalar_values=arg.get('scalar_values'), **arg.get('kw', {}))
+                      scalar_values=arg.get('scalar_values'), **kw)
         finally:
             for k, v in envbak.items():
                 if v is None:
@@ -58,6 +68,14 @@ def run_tables(arg):
                     os.environ[k] = v
         out = {}
         want = arg.get('want')
+        if outd:
+            import csv
+            for fn in sorted(os.listdir(outd)):
+                if fn.endswith('.csv') and not (want and fn[:-4] not in want):
+                    with open(os.path.join(outd, fn), newline='', encoding='utf-8') as f:
+                        rd = list(csv.reader(f))
+                    out[fn[:-4]] = {'cols': rd[0], 'rows': [[None if x == '' else x for x in r] for r in rd[1:]], 'file': True}
+            return {'results': out, 'files': sorted(os.listdir(outd))}
         for n, v in res.items():
             if want and n not in want:
                 continue
